@@ -192,8 +192,17 @@ func c03(c *vc.Ctx) {
 		"a program whose original form does not parse, times out, or gives different results in repeated bash runs is skipped (counted); when the interpreter cannot run the original (fatal error) only the bash clause is judged",
 		"results of generated programs are cached per text (they cannot observe the scratch path); a failing case is always re-executed without the cache",
 	}
+	skipN := 0 // development aid: skip the first N cases of the enumeration
+	fmt.Sscan(os.Getenv("VERIF_C03_SKIP_CASES"), &skipN)
 	dry := os.Getenv("VERIF_C03_DRY") != "" // development aid: enumerate and print only
-	complete := vc.RunBatch(c, 16, func(emit func(c03Case)) { c03Gen(c, emit) }, func(batch []c03Case) []*vc.Fail {
+	complete := vc.RunBatch(c, 16, func(emit func(c03Case)) {
+		n := 0
+		c03Gen(c, func(t c03Case) {
+			if n++; n > skipN {
+				emit(t)
+			}
+		})
+	}, func(batch []c03Case) []*vc.Fail {
 		slot := slots.get()
 		defer slots.put(slot)
 		out := make([]*vc.Fail, len(batch))
@@ -360,7 +369,7 @@ func c03One(c *vc.Ctx, t c03Case, slot string, st *c03OrigCache, cache bool) *vc
 	which := strings.Join(diffs, "+")
 	fail := &vc.Fail{Key: key + " differs-in-" + which, Detail: detail}
 	var sb strings.Builder
-	fmt.Fprintf(&sb, "%s printed with %s gives %s which behaves differently", shortSrc(t.Src), t.Cfg, shortSrc(text))
+	fmt.Fprintf(&sb, "%s printed with %s gives %s which behaves differently", shortSrc(c03Display(t.Src)), t.Cfg, shortSrc(c03Display(text)))
 	for _, d := range diffs {
 		if d == "bash" {
 			fmt.Fprintf(&sb, "; bash: %s -> %s", o.bash, gotB)
@@ -371,4 +380,16 @@ func c03One(c *vc.Ctx, t c03Case, slot string, st *c03OrigCache, cache bool) *vc
 	fail.Msg = sb.String()
 	fail.Class = c03Classify(t, f, text, diffs, o, gotB, gotI)
 	return fail
+}
+
+// c03Display drops the fixed prelude of a generated program (and its printed
+// form) for messages.
+func c03Display(s string) string {
+	const mark = "done; }'"
+	if i := strings.Index(s, mark); i >= 0 && strings.HasPrefix(s, "x=1 y=ab z='c d'") {
+		s = s[i+len(mark):]
+		s = strings.TrimPrefix(s, ";")
+		s = strings.TrimLeft(s, " \n")
+	}
+	return s
 }
